@@ -162,6 +162,31 @@ def check(col: Collector, tier: str):
             f"extended_md() reads {sorted(read_cells)} after write_cpp_files, which finishes with reset(); reset re-initialises "
             f"{sorted(read_cells & reset_cells)}: the docker image chosen by the query's metadata would always be lost", ex.loc)
 
+    # every docker metadata block of the query reaches extended_md("docker"), in query order (the last one wins)
+    pmd = repo.function("process_metadata")
+    ebr = [n for n in ast.walk(pmd.node) if isinstance(n, ast.If) and isinstance(n.test, ast.Compare) and isinstance(n.test.ops[0], ast.In)
+           and src(n.test.left) == "md_type" and src(n.test.comparators[0]) == pmd.node.args.args[1].arg]
+    if len(ebr) != 1:
+        raise AnalysisError("process_metadata: extended-metadata branch not found")
+    fake = ast.FunctionDef(name="_", args=pmd.node.args, body=ebr[0].body, decorator_list=[], lineno=ebr[0].lineno)
+    eps = enumerate_paths(fake, unroll=1)
+    ok = bool(eps) and all(p.status == "end" and any(e.kind == "call" and call_name(e.node) == "append" and src(e.node.func.value) == "cpp_funcs"
+                                                      for e in p.events) for p in eps)
+    cp_ = [c for c in ast.walk(fake) if isinstance(c, ast.Call) and call_name(c) == "copy"]
+    ok = ok and len(cp_) == 1 and "extended_properties[md_type]" in src(cp_[0]).replace(pmd.node.args.args[1].arg, "extended_properties")
+    col.add("C17.R2", "process_metadata.extended", "every-extended-block-kept-in-order", ok,
+            "each extended (docker) metadata block must be copied from its prototype, filled and appended unconditionally: de-duplicating equal "
+            "blocks changes which one is last, and the dataset runs md[-1].image", pmd.loc)
+    aat = exq.methods.get("apply_ast_transformations")
+    okf = False
+    for n in walk_no_nested(aat.node):
+        if isinstance(n, ast.For) and src(n.iter) == "cpp_functions":
+            for c in ast.walk(n):
+                if isinstance(c, ast.Call) and call_name(c) == "append" and "_found_extended_md[" in src(c.func.value) and src(c.args[0]) == src(n.target):
+                    okf = True
+    col.add("C17.R2", "executor.apply_ast_transformations", "found-metadata-recorded-in-query-order", okf,
+            "every extended metadata item must be appended to _found_extended_md[<its key>] while iterating the metadata in order", aat.loc)
+
     # file list loop
     loops = [n for n in walk_no_nested(ex.node) if isinstance(n, ast.For) and src(n.iter) == "self.files"]
     ok_loop = len(loops) == 1
